@@ -1043,22 +1043,35 @@ def dw_tables():
     def types_table():
         # three type units in .debug_types: signature and type offset are per unit
         units = abbrevs = b''
-        for i in range(3):
+        for i in range(4):
             cu = dwtab.CU(version=4, root_tag=0x41)
             cu.root_name = 'tu%d' % i
-            cu.header_extra = struct.pack('<QI', 0x1111111111111111 * (i + 1), 0)
+            # the last unit repeats the first one's signature (a relocatable link keeps both copies)
+            sig = 0x1111111111111111 * (i % 3 + 1)
+            cu.header_extra = struct.pack('<QI', sig, 0)
             cu.add(0x13, [(0x0b, 0x0b, bytes([8 * (i + 1)]), None)], label='S%d' % i)
+            # addresses inside a type unit (a static member's location): the unit's own address size applies
+            cu.add(0x34, [(0x02, 0x18, dwtab.expr_block(bytes([0x03]) + struct.pack('<Q', 0x1122334455667700 + i)), None),
+                          (0x11, 0x01, struct.pack('<Q', 0x8877665544332200 + i), None)], label='static%d' % i)
             # a structure with a child list and a sibling reference (relative to its own unit), then the sibling
             cu.add(0x13, [(0x0b, 0x0b, bytes([4]), None), (0x01, 0x13, lambda pos: struct.pack('<I', pos + 4 + 1), None)], label='N%d' % i, children=True)
             cu.add(0x24, [(0x0b, 0x0b, bytes([2]), None)], label='after_N%d' % i)
-            cu.header_extra = struct.pack('<QI', 0x1111111111111111 * (i + 1), cu.header_size() + 1 + len(cu.root_name) + 1)
+            cu.header_extra = struct.pack('<QI', sig, cu.header_size() + 1 + len(cu.root_name) + 1)
             u, ab, offs = cu.build(abbrev_base=len(abbrevs))
             units += u
             abbrevs += ab
-        main = dwtab.CU(version=4)
+        main = dwtab.CU(version=5)      # (GNU readelf 2.40 misreads a version 4 unit in front of a version 5 type unit)
         main.add(0x34, [(0x49, 0x20, struct.pack('<Q', 0x2222222222222222), None)], label='uses_sig8')
         mu, mab, _ = main.build(abbrev_base=len(abbrevs))
-        return oracles.wrap_debug({'.debug_info': mu, '.debug_abbrev': abbrevs + mab, '.debug_types': units}, True), 4
+        abbrevs += mab
+        # a version 5 type unit in .debug_info beside the version 4 ones in .debug_types (objects of both kinds linked together)
+        t5 = dwtab.CU(version=5, unit_type=2, root_tag=0x41)
+        t5.root_name = 'tu_v5'
+        t5.header_extra = struct.pack('<QI', 0x7777777777777777, 0)
+        t5.add(0x13, [(0x0b, 0x0b, bytes([12]), None)], label='S5')
+        t5.header_extra = struct.pack('<QI', 0x7777777777777777, t5.header_size() + 1 + len(t5.root_name) + 1)
+        tu5, tab5, _ = t5.build(abbrev_base=len(abbrevs))
+        return oracles.wrap_debug({'.debug_info': mu + tu5, '.debug_abbrev': abbrevs + tab5, '.debug_types': units}, True), 6
     T.append(('debug_types', '--debug-dump=info', types_table, lambda ln: 'compilation unit @' in ln))
     T.append(('DW_AT/vendor', '--debug-dump=info', at_table(False), is_die))
 
@@ -1094,7 +1107,8 @@ def dw_tables():
                  ('block4', 0x1c, struct.pack('<I', 3) + b'abc'), ('data2', 0x1c, struct.pack('<H', 0x1234)),
                  ('data4', 0x1c, struct.pack('<I', 0x12345678)), ('data8', 0x1c, struct.pack('<Q', 0x123456789abcdef0)),
                  ('string', 0x25, b'inline\0'), ('block', 0x1c, uleb(3) + b'abc'), ('block1', 0x1c, b'\x03abc'),
-                 ('data1', 0x1c, b'\x7f'), ('flag', 0x3f, b'\x01'), ('flag.false', 0x3f, b'\x00'), ('sdata', 0x1c, sleb(-300)), ('strp', 0x25, struct.pack('<I', 7)),
+                 ('data1', 0x1c, b'\x7f'), ('flag', 0x3f, b'\x01'), ('flag.false', 0x3f, b'\x00'), ('sdata', 0x1c, sleb(-300)), ('sdata.min', 0x1c, sleb(-2 ** 63)), ('sdata.tenbytes', 0x1c, sleb(-2 ** 62 - 5)),
+                 ('sdata.max', 0x1c, sleb(2 ** 63 - 1)), ('udata.max', 0x1c, uleb(2 ** 64 - 1)), ('strp', 0x25, struct.pack('<I', 7)),
                  ('udata', 0x1c, uleb(300)), ('ref_addr', 0x49, struct.pack('<I', target + LEAD)), ('ref1', 0x49, bytes([target])),
                  ('ref2', 0x49, struct.pack('<H', target)), ('ref4', 0x49, struct.pack('<I', target)),
                  ('ref8', 0x49, struct.pack('<Q', target)), ('ref_udata', 0x49, uleb(target)),
@@ -1104,11 +1118,17 @@ def dw_tables():
                  ('line_strp', 0x25, struct.pack('<I', 8)), ('data16', 0x1c, bytes(range(16))),
                  ('strx1', 0x03, b'\x01'), ('strx2', 0x03, struct.pack('<H', 1)), ('strx3', 0x03, b'\x01\0\0'),
                  ('strx4', 0x03, struct.pack('<I', 1)), ('addrx1', 0x11, b'\x02'), ('addrx2', 0x11, struct.pack('<H', 2)),
-                 ('addrx3', 0x11, b'\x02\0\0'), ('addrx4', 0x11, struct.pack('<I', 2))]
+                 ('addrx3', 0x11, b'\x02\0\0'), ('addrx4', 0x11, struct.pack('<I', 2)),
+                 # the real form follows in the entry: its value is described like that form's
+                 ('indirect.strp', 0x25, uleb(0x0e) + struct.pack('<I', 7)), ('indirect.line_strp', 0x25, uleb(0x1f) + struct.pack('<I', 8)),
+                 ('indirect.data2', 0x1c, uleb(0x05) + struct.pack('<H', 0x1234)), ('indirect.sdata', 0x1c, uleb(0x0d) + sleb(-300)),
+                 ('indirect.ref4', 0x49, uleb(0x13) + struct.pack('<I', target)), ('indirect.string', 0x25, uleb(0x08) + b'inl\0'),
+                 ('indirect.flag', 0x3f, uleb(0x0c) + b'\x01')]
         n = 0
         for name, at, data in cases:
             code = F.get('DW_FORM_' + name.split('.')[0])
-            if not isinstance(code, int) or 'DW_FORM_' + name.split('.')[0] not in DD._ATTR_DESCRIPTION_MAP:
+            described = 'DW_FORM_' + (name.split('.')[1] if name.startswith('indirect.') else name.split('.')[0])
+            if not isinstance(code, int) or described not in DD._ATTR_DESCRIPTION_MAP:
                 continue            # only the forms the clone's description table has an entry for
             cu.add(0x34, [(at, code, data, -5 if name == 'implicit_const' else None)], label='form_' + name)
             n += 1
